@@ -1,7 +1,7 @@
 (* C03 — every emitted tag mirrors the bytes at its reported offset; tags tile the stream.  Statements only
    (proofs in Proofs/PureProofs.v and Proofs/Tiling.v). *)
 From Ebml Require Import Base Tools Spec Reader Pure Proofs.Tactics Proofs.ReaderIO Proofs.Refine Proofs.PureProofs
-  Proofs.RollUp Proofs.Nesting Proofs.BufferSim Proofs.Tiling.
+  Proofs.RollUp Proofs.Nesting Proofs.BufferSim Proofs.Tiling Proofs.Extents Proofs.AuditNesting.
 
 (* One tag (every configuration, every parser state, every remaining input): if reading a tag succeeds then
    - the offset recorded for the item is the cursor position before the tag,
@@ -39,7 +39,9 @@ Proof. exact buffered_refines_pure. Qed.
      a first segment of [bytes], the next item reports [off + length of that segment] and mirrors the segment that follows, and so
      on; after the last item the offset is [off'] and [rest] is what remains.  [Tiled sp off bytes items]: for some [off'], [rest].
    [non_end_items outs]: the items of a run that are not End items, each with its offset, in order.
-   [clean_prefix outs]: the outcomes of a run before the first error, try_recover result, panic-site or budget outcome.
+   [clean_prefix outs]: the outcomes of a run before the first error, try_recover result, panic-site or recursion-budget outcome
+     (OErr, ORecOk, ORecErr, OPanic, OFuel).  The item-limit outcome OLimit of a drain does NOT end the prefix ([clean OLimit = true]):
+     it carries no item, so the items of the prefix are the same with or without it.
    An error consumes the bytes of the offending element without yielding an item and try_recover skips bytes on purpose, so
    the tiling is stated up to that point; after it the offsets still mirror the bytes tag by tag (C03_tag_mirrors_bytes). *)
 
@@ -61,6 +63,14 @@ Proof. exact run_tiles. Qed.
 Theorem C03_drain_tiles : forall c input, c_buffered c = [] ->
   Tiled (c_sp c) 0 input (non_end_items (p_run c input [RAll])).
 Proof. exact run_all_tiles. Qed.
+
+(* [Tiled] leaves the end of the tiling open (some [off'], some [rest]).  When the drain ends with None - no error, no cut, no
+   budget outcome - the tiling reaches the END of the input: it ends at offset [length input] and no byte is left over.  Nothing
+   buffered; any tolerance settings; Ends at the end of input emitted or not. *)
+Theorem C03_clean_drain_tiles_whole_input : forall c input, c_buffered c = [] ->
+  forall outs, p_run c input [RAll] = outs ++ [ONone] ->
+  Tiles (c_sp c) 0 input (non_end_items (p_run c input [RAll])) (N.of_nat (length input)) [].
+Proof. exact clean_drain_tiles_whole_input. Qed.
 
 (* the same spelled out: input = seg_1 ++ .. ++ seg_n ++ rest, the k-th non-End item reports the offset
    |seg_1| + .. + |seg_(k-1)| ([offsets 0 segs]) and mirrors seg_k ([seg_mirror]) *)
@@ -101,6 +111,40 @@ Theorem C03_eof_closes_all : forall c input, c_buffered c = [] -> c_emit_eof c =
   exists base, zero_base base /\ chk_off base (out_pairs outs) = Some [].
 Proof. exact eof_closes_all_off. Qed.
 
+(* The base of C03_end_offsets pinned ([zero_base base] constrains only the offsets, not the ids, and an arbitrary base absorbs
+   unmatched Ends).  Rooted form: with unknown ids and hierarchy errors not tolerated and nothing buffered, for every input and
+   every sequence of operations (errors and recoveries included), if the first item of the run is a Start or element whose id
+   is declared with the empty path (a root element), every End item is matched from the EMPTY base: each End names the innermost
+   open Start and reports its offset. *)
+Theorem C03_end_offsets_rooted : forall c input ops,
+  c_allow_id c = false -> c_allow_hier c = false -> c_buffered c = [] ->
+  forall x rest, out_tags (p_run c input ops) = x :: rest -> is_se x = true -> get_path (c_sp c) (tag_id x) = [] ->
+  chk_off [] (out_pairs (p_run c input ops)) <> None.
+Proof. exact run_end_offsets_rooted. Qed.
+
+(* General form, for the items before the first error or try_recover call: the base is [zbase base] (the ids of [base], each at
+   offset 0) for the [base] that [pinned_base] determines (Props/C06.v, C06_clean_prefix_pinned_all): empty while no element with
+   a placeholder-free declared path has come, else the masters named by the declared path of the first such element, everything
+   before it being accepted from the empty base and closed again. *)
+Theorem C03_end_offsets_pinned : forall c input ops,
+  c_allow_id c = false -> c_allow_hier c = false -> c_buffered c = [] ->
+  let cp := clean_prefix (p_run c input ops) in
+  exists base, pinned_base (c_sp c) (out_tags cp) base /\ chk_off (zbase base) (out_pairs cp) <> None.
+Proof. exact clean_end_offsets_pinned. Qed.
+
+(* every run, errors and recoveries included: the End offsets are matched from [zbase base] for a [base] that is empty or the
+   chain of declared masters named by a placeholder-free declared path ([Based], Props/C06.v C06_strict_items_based) *)
+Theorem C03_end_offsets_based : forall c input ops,
+  c_allow_id c = false -> c_allow_hier c = false -> c_buffered c = [] ->
+  exists base, Based (c_sp c) base (out_tags (p_run c input ops)) /\ chk_off (zbase base) (out_pairs (p_run c input ops)) <> None.
+Proof. exact run_end_offsets_based. Qed.
+
+(* whatever base the offset checker accepts a sequence from, it accepts it from (the ids, at offset 0, of) every base the nesting
+   checker of C06 accepts its tags from *)
+Theorem C03_chk_off_same_base : forall sp items baseO base, zero_base baseO ->
+  chk_off baseO items <> None -> chk sp base false (map fst items) <> None -> chk_off (zbase base) items <> None.
+Proof. intros sp items baseO base Hz H1 H2. exact (chk_off_same_base sp items [] baseO base false Hz H1 H2). Qed.
+
 (* the implied ancestors all get offset 0 *)
 Theorem C03_implied_offsets : forall sp p stk, implied_stack sp p = Some stk -> zero_base (map fr stk).
 Proof. exact implied_stack_zero. Qed.
@@ -139,6 +183,47 @@ Example C03_ex :
   p_run c [129; 136; 65; 3; 133; 65; 1; 130; 255; 56] [RAll] =
     [OItem (TStart 129) 0; OItem (TFull 16643 [TElem 16641 (VI (-200))]) 2; OItem (TEnd 129) 0; ONone].
 Proof. vm_compute. reflexivity. Qed.
+
+(* the hypotheses of C03_buffered_tiles_and_offsets hold for that run: every outcome is an item or the final None, and the run
+   of the unbuffered configuration is not cut at its item limit; so the theorem applies and yields the unrolling, its tiling and
+   its End offsets *)
+Definition C03_ex_sp : spec :=
+  [ {| e_id := 129; e_ty := DMaster; e_path := [] |}; {| e_id := 16643; e_ty := DMaster; e_path := [PId 129] |};
+    {| e_id := 16641; e_ty := DSInt; e_path := [PId 129; PId 16643] |} ].
+Definition C03_ex_cfg : cfg :=
+  {| c_sp := C03_ex_sp; c_allow_id := false; c_allow_hier := false; c_allow_over := false; c_max := Some 4000000000;
+     c_buffered := [16643]; c_emit_eof := true |}.
+Definition C03_ex_doc : list N := [129; 136; 65; 3; 133; 65; 1; 130; 255; 56].
+
+Example C03_ex_buffered_applies :
+  let outs := p_run C03_ex_cfg C03_ex_doc [RAll] in
+  outs = [OItem (TStart 129) 0; OItem (TFull 16643 [TElem 16641 (VI (-200))]) 2; OItem (TEnd 129) 0; ONone] /\
+  (forall o, In o outs -> match o with OItem _ _ | ONone => True | _ => False end) /\
+  ~ In OLimit (p_run (unbuffered C03_ex_cfg) C03_ex_doc [RAll]) /\
+  p_run (unbuffered C03_ex_cfg) C03_ex_doc [RAll] =
+    [OItem (TStart 129) 0; OItem (TStart 16643) 2; OItem (TElem 16641 (VI (-200))) 5; OItem (TEnd 16643) 2; OItem (TEnd 129) 0; ONone] /\
+  (exists U, Unr (out_items outs) U /\ Tiled (c_sp C03_ex_cfg) 0 C03_ex_doc (ne_q U) /\
+             exists base, zero_base base /\ chk_off base (all_q U) <> None).
+Proof.
+  cbv zeta.
+  assert (H1 : forall o, In o (p_run C03_ex_cfg C03_ex_doc [RAll]) -> match o with OItem _ _ | ONone => True | _ => False end).
+  { vm_compute. intros o H. repeat (destruct H as [<-|H]; [exact I|]). contradiction H. }
+  assert (H2 : ~ In OLimit (p_run (unbuffered C03_ex_cfg) C03_ex_doc [RAll])).
+  { vm_compute. intros H. repeat (destruct H as [H|H]; [discriminate H|]). exact H. }
+  split; [vm_compute; reflexivity|]. split; [exact H1|]. split; [exact H2|]. split; [vm_compute; reflexivity|].
+  exact (C03_buffered_tiles_and_offsets C03_ex_cfg C03_ex_doc H1 H2).
+Qed.
+
+(* the drain of the unbuffered configuration on that document ends with None, so its three non-End items tile all 10 bytes *)
+Example C03_ex_whole_input :
+  non_end_items (p_run (unbuffered C03_ex_cfg) C03_ex_doc [RAll]) = [(TStart 129, 0); (TStart 16643, 2); (TElem 16641 (VI (-200)), 5)] /\
+  Tiles C03_ex_sp 0 C03_ex_doc (non_end_items (p_run (unbuffered C03_ex_cfg) C03_ex_doc [RAll])) 10 [].
+Proof.
+  split; [vm_compute; reflexivity|].
+  apply (C03_clean_drain_tiles_whole_input (unbuffered C03_ex_cfg) C03_ex_doc eq_refl
+           [OItem (TStart 129) 0; OItem (TStart 16643) 2; OItem (TElem 16641 (VI (-200))) 5; OItem (TEnd 16643) 2; OItem (TEnd 129) 0]).
+  vm_compute. reflexivity.
+Qed.
 
 (* Root(129) > Seg(130) > Val(16641); Void(236) may occur anywhere *)
 Example C03_ex_tiling :
